@@ -8,6 +8,9 @@ import threading
 import time
 
 
+from vf import FAKE_CLOCK  # virtual time, installed in vf/__init__ before pyrtcm is imported
+
+
 class BudgetExceeded(BaseException):
     """Raised by a double when the logical step budget (number of read/recv calls) is exceeded.
 
@@ -246,10 +249,23 @@ class ScriptedSocket(socket.socket):
                     if item == "T":
                         self.recv_log.append((n, "T"))
                         self.faults += 1
+                        FAKE_CLOCK[0] += 45.0  # a receive timeout takes (virtual) time, see fake_clock()
                         raise TimeoutError("timed out")
                     if item == "E":
                         self.recv_log.append((n, "E"))
                         self.faults += 1
+                        # OS errors as the operating system raises them: with and without an errno
+                        import errno as _e
+
+                        k = (self.faults + len(self._vdata)) % 5
+                        if k == 0:
+                            raise ConnectionResetError(_e.ECONNRESET, "Connection reset by peer")
+                        if k == 1:
+                            raise BrokenPipeError(_e.EPIPE, "Broken pipe")
+                        if k == 2:
+                            raise BlockingIOError(_e.EAGAIN, "Resource temporarily unavailable")
+                        if k == 3:
+                            raise OSError(_e.ENOTCONN, "Transport endpoint is not connected")
                         raise OSError("scripted error")
                     if item <= 0:
                         continue
@@ -344,6 +360,32 @@ def makefile_stream(data: bytes):
     f = b.makefile("rb")
     b.close()
     return f, t
+
+
+class SerialLikeStream(RecordingStream):
+    """RecordingStream with the extra surface of a pyserial port: in_waiting, timeout, reset_input_buffer() (which
+    DISCARDS everything received but not yet read - here: the rest of the data), flush()."""
+
+    timeout = 3
+    port = "/dev/ttyVERIF0"
+    resets = 0
+
+    @property
+    def in_waiting(self):
+        return 0 if self.dead else len(self.data) - self.pos
+
+    def reset_input_buffer(self):
+        self.resets += 1
+        self.pos = len(self.data)
+
+    def reset_output_buffer(self):
+        pass
+
+    def flush(self):
+        pass
+
+    def write(self, b):
+        return len(b)
 
 
 class SeekableRecordingStream(RecordingStream):
